@@ -1,5 +1,5 @@
 from armulator.armv6.arm_exceptions import UndefinedInstructionException
-from armulator.armv6.bits_ops import add, sub, bit_count, bit_at
+from armulator.armv6.bits_ops import add, sub, bit_count, bit_at, substring
 from armulator.armv6.enums import InstrSet
 from armulator.armv6.opcodes.opcode import Opcode
 
@@ -21,7 +21,8 @@ class LdmExceptionReturn(Opcode):
                   processor.registers.current_instr_set() == InstrSet.THUMB_EE):
                 print('unpredictable')
             else:
-                length = (4 * bit_count(self.registers, 1, 16)) + 4
+                # registers<14:0> is the register list; bit 15 of the field is the fixed '1' of the encoding
+                length = (4 * bit_count(substring(self.registers, 14, 0), 1, 15)) + 4
                 address = processor.registers.get(self.n) if self.increment else sub(processor.registers.get(self.n),
                                                                                      length, 32)
                 if self.word_higher:
